@@ -28,6 +28,9 @@ Programs == <<
   \* 5: atomics, fence, csr, compressed
   << <<Mn("amoadd.w"), Rg(1), Rg(2), Rg(3), In(1), In(0)>>, <<Mn("fence"), In(3), In(5)>>, <<Mn("csrrw"), Rg(1), Rg(2), In(768)>>,
      <<Mn("c.addi"), Rg(8), In(-3)>>, <<Mn("c.mv"), Rg(8), Rg(9)>>, <<Mn("lr.w"), Rg(5), Rg(6)>>, <<Mn("c.addi16sp"), In(-32)>> >>,
+  \* 7: base+offset instructions whose offset is also a register spelling (8, 12, 0, 31, 16)
+  << <<Mn("c.lw"), Rg(10), Off(8, 9)>>, <<Mn("c.sw"), Rg(11), OffS(12, 9)>>, <<Mn("lw"), Rg(5), Off(12, 6)>>, <<Mn("sw"), Rg(5), OffS(8, 2)>>,
+     <<Mn("jalr"), Rg(0), Off(16, 1)>>, <<Mn("lh"), Rg(31), Off(31, 31)>>, <<Mn("sb"), Rg(9), OffS(0, 8)>>, <<Mn("c.lw"), Rg(15), Off(0, 8)>> >>,
   \* 6: every register in every spelling
   [j \in 1..11 |-> <<Mn("add"), Rg((3 * j - 3) % 32), Rg((3 * j - 2) % 32), Rg((3 * j - 1) % 32)>>]
 >>
@@ -64,4 +67,6 @@ LexTheorem == Chosen => LexRoundTrip(Programs[p][i], c)
 Export == Chosen => PrintT(<<"V", p, i, Text(Programs[p][i], c)>>)
 \* the canonical text of every line, printed once
 ASSUME PrintT(<<"CANON", [q \in 1..Len(Programs) |-> [j \in 1..Len(Programs[q]) |-> Text(Programs[q][j], Canonical(Programs[q][j]))]]>>)
+\* the same with the `reg, imm` offset syntax (a second reference spelling, should the first be refused)
+ASSUME PrintT(<<"CANON2", [q \in 1..Len(Programs) |-> [j \in 1..Len(Programs[q]) |-> Text(Programs[q][j], [Canonical(Programs[q][j]) EXCEPT !.paren = FALSE])]]>>)
 =============================================================================
